@@ -847,6 +847,117 @@ impl Check for PrivilegeMatrix {
     }
 }
 
+// ---------------------------------------------------------------------------------------------
+// internal callback forged while a loan is in progress
+// ---------------------------------------------------------------------------------------------
+
+#[derive(Clone, Debug, Serialize, Deserialize)]
+pub struct ForgeCase {
+    pub cw20: bool,
+    pub deposit: Uint128,
+    /// loan = k/65536 of the vault balance
+    pub loan_k: u16,
+    pub old_balance: Uint128,
+    pub loan_amount: Uint128,
+    /// what the borrower does after the forged callback, before repaying exactly
+    pub then: u8,
+    pub then_amount: Uint128,
+    /// forge from inside a nested loan as well
+    pub nested: bool,
+}
+
+pub struct ForgedCallbackDuringLoan;
+
+impl Check for ForgedCallbackDuringLoan {
+    type Case = ForgeCase;
+    fn name(&self) -> &'static str {
+        "forged_callback_during_loan"
+    }
+    fn rule(&self) -> &'static str {
+        "vault (native or cw20 asset) with liquidity; a flash loan whose borrower contract, from inside its callback (optionally inside a nested loan), sends the vault its internal Callback(AfterTrade{old_balance, loan_amount}) message with generated arguments (0, the real values, random), then optionally deposits / withdraws / collects, then repays exactly. The borrower's reply handler reports the vault's verdict: the forged callback must be rejected whenever the sender is not the vault itself, also while a loan is in progress; afterwards the loan counter is 0 and no share was minted inside the loan. Non-trivial: the loan transaction succeeded (so the verdict was observed in a committed transaction)."
+    }
+    fn strategy(&self, _tier: Tier) -> BoxedStrategy<ForgeCase> {
+        let arg = || prop_oneof![2 => Just(0u128), 2 => crate::engine::gen::log_uniform(1, 1u128 << 60)];
+        (any::<bool>(), crate::engine::gen::log_uniform(10_000, 1u128 << 50), 1u16..60000, arg(), arg(), 0u8..4, crate::engine::gen::log_uniform(1, 1u128 << 40), any::<bool>())
+            .prop_map(|(cw20, deposit, loan_k, o, l, then, ta, nested)| ForgeCase {
+                cw20,
+                deposit: Uint128::new(deposit),
+                loan_k,
+                old_balance: Uint128::new(o),
+                loan_amount: Uint128::new(l),
+                then,
+                then_amount: Uint128::new(ta),
+                nested,
+            })
+            .boxed()
+    }
+    fn cases(&self, tier: Tier) -> u32 {
+        tier.pick(3_000, 200_000)
+    }
+    fn min_nontrivial(&self) -> f64 {
+        0.2
+    }
+    fn test(&self, c: &ForgeCase, rec: &Rec) -> TResult {
+        use crate::mocks::{Repay, Step};
+        use crate::vaults::{VaultCfg, VaultWorld};
+        let cfg = VaultCfg { cw20: c.cw20, fees: [Uint128::new(1_000_000_000_000_000), Uint128::new(2_000_000_000_000_000), Uint128::zero()] };
+        let mut vw = VaultWorld::build(&cfg).map_err(|e| Fail::new(format!("world build failed: {e}")))?;
+        let u0 = vw.user(0);
+        vw.deposit(&u0, c.deposit.u128()).map_err(|e| Fail::new(format!("funding deposit failed: {e}")))?;
+        let bal = vw.w.bal(&vw.info, &vw.vault);
+        let amount = crate::engine::gen::frac(c.loan_k, bal).max(1);
+        let forge = Step::ForgeCallback { old_balance: c.old_balance, loan_amount: c.loan_amount };
+        let mut inner = vec![forge.clone()];
+        match c.then {
+            1 => inner.push(Step::Deposit { amount: c.then_amount, swallow: true }),
+            2 => inner.push(Step::Withdraw { shares: c.then_amount }),
+            3 => inner.push(Step::Collect),
+            _ => {}
+        }
+        inner.push(Step::Repay(Repay::Exact));
+        let program = if c.nested {
+            vec![Step::NestedLoan { amount: Uint128::new((amount / 2).max(1)), program: inner }, forge, Step::Repay(Repay::Exact)]
+        } else {
+            inner
+        };
+        let supply_before = vw.w.cw20_supply(&vw.lp);
+        let r = vw.start_loan(&u0, amount, &program);
+        match r {
+            Ok(resp) => {
+                rec.nontrivial(hash_of(c));
+                rec.sample(c);
+                let mut seen = 0;
+                for ev in &resp.events {
+                    for a in &ev.attributes {
+                        if a.key == "forged_callback" {
+                            seen += 1;
+                            ensure!(
+                                a.value == "rejected",
+                                "the vault accepted Callback(AfterTrade {{ old_balance: {}, loan_amount: {} }}) sent by the borrower contract while a loan of {amount} was in progress (nested: {})",
+                                c.old_balance,
+                                c.loan_amount,
+                                c.nested
+                            );
+                        }
+                    }
+                }
+                ensure!(seen >= 1, "the borrower's reply handler did not report a verdict on the forged callback");
+                rec.class("forged_callback_rejected");
+                let counter = vw.loan_counter();
+                ensure!(counter == Some(0) || counter.is_none(), "loan counter is {counter:?} after the loan transaction");
+                let supply_after = vw.w.cw20_supply(&vw.lp);
+                let borrower_lp = vw.w.cw20_balance(&vw.lp, &vw.borrower);
+                ensure!(
+                    supply_after <= supply_before || borrower_lp == 0,
+                    "vault shares were minted to the borrower inside the loan: supply {supply_before} -> {supply_after}, borrower holds {borrower_lp}"
+                );
+            }
+            Err(_) => rec.class("loan_reverted"),
+        }
+        Ok(())
+    }
+}
+
 pub fn property() -> Property {
     let mism = table_mismatches();
     if !mism.is_empty() {
@@ -855,7 +966,7 @@ pub fn property() -> Property {
     }
     Property {
         id: "C16",
-        checks: vec![Box::new(PrivilegeMatrix)],
+        checks: vec![Box::new(PrivilegeMatrix), Box::new(ForgedCallbackDuringLoan)],
         assumptions: vec![
             "14 of the 16 crates are covered: the cw20 token (cw20-base semantics) and the test-only fee-distributor mock are not part of the privilege table",
             "the swap router's route management is authorised by the wasm admin; the world instantiates the router with an admin (with no admin the code deliberately lets anyone in)",
